@@ -420,6 +420,8 @@ def job_inner(j):
             rnd = random.Random(hashlib.sha1((hname + json.dumps(j['presets'], sort_keys=True)).encode()).hexdigest())
             epc, end, ech = entry
             reals = [(k, t) for k, (kind, bits, t) in sorted(end.items()) if kind == 'real']
+            fbits = [(k, bits, t) for k, (kind, bits, t) in sorted(end.items()) if kind == 'fbits']
+            ints = [(k, bits, t) for k, (kind, bits, t) in sorted(end.items()) if kind == 'int']
             for _ in range(nor * 3):
                 if len(cases) >= nor or time.time() - t_o > 60:
                     break
@@ -427,6 +429,23 @@ def job_inner(j):
                 so.set('timeout', 2000)
                 for c in epc:
                     so.add(c)
+                # bit-exact readings: each float input is pinned to a value of a random class
+                # (zero, small integer, moderate, tiny, huge, NaN/Inf), each integer input to a
+                # random value with probability 1/2; a pin that contradicts the assumptions is dropped
+                for k, bits, t in fbits:
+                    cls = rnd.randrange(8)
+                    x = [0.0, -0.0, float(rnd.randint(-8, 8)), rnd.uniform(-64, 64), rnd.uniform(-64, 64), rnd.uniform(-1, 1) * 2.0 ** -rnd.randint(20, 120),
+                         rnd.uniform(-1, 1) * 2.0 ** rnd.randint(20, 120), rnd.choice([float('nan'), float('inf'), float('-inf')])][cls]
+                    so.push()
+                    so.add(t == z3.BitVecVal(fpops.bits_of_py(bits, fpops.rw(bits, x)), bits))
+                    if so.check() != z3.sat:
+                        so.pop()
+                for k, bits, t in ints:
+                    if rnd.random() < 0.5:
+                        so.push()
+                        so.add(t == z3.BitVecVal(rnd.getrandbits(bits) if rnd.random() < 0.5 else rnd.randrange(4), bits))
+                        if so.check() != z3.sat:
+                            so.pop()
                 for k, t in reals:
                     w = rnd.choice([0.5, 2.0, 8.0, 32.0])
                     lo = rnd.uniform(-64, 64 - w)
